@@ -6,11 +6,16 @@ def member(chunk, tier, seed):
     return matrixchecks.matrix_chunk(chunk, tier, seed)
 
 
+def lookalike(chunk, tier, seed):
+    return matrixchecks.lookalike_chunk(chunk, tier, seed)
+
+
 def run(tier='quick', seed=0):
     chunks = matrixchecks.chunk_payloads(tier, seed)
     results = harness.run_pool('bounded.drivers.C09', 'member', chunks, tier, seed)
+    results += harness.run_pool('bounded.drivers.C09', 'lookalike', matrixchecks.lookalike_payloads(tier, seed), tier, seed)
     return harness.aggregate(
         results,
         rule='one evaluation = one clause on one (settings, existence pattern[, matrix]); non-trivial = distinct (settings, existence pattern)',
-        bound='all 256 pairs of connector types (8 degree specs x repeat flag) for 1x1; 250 (quick) / 1500 (thorough) seeded settings each for 1x2, 2x1 and 2x2 (2x2 with 0-2 excluded pairs); thorough: +300 VERIF_SEED-seeded settings up to 3x3; all existence patterns; validity test on every matrix of the per-pair box +1',
+        bound='all 256 pairs of connector types (8 degree specs x repeat flag) for 1x1; 250 (quick) / 1500 (thorough) seeded settings each for 1x2, 2x1 and 2x2 (2x2 with 0-2 excluded pairs); thorough: +300 VERIF_SEED-seeded settings up to 3x3; all existence patterns; validity test on every matrix of the per-pair box +1; every third setting asked for one pattern first; 60 (300) settings with an explicit limit on parallel connections; 40 (200) settings each followed, with the caches on, by 4-6 settings that differ in one respect',
         assumptions=['brute-force oracle with the documented pair-limit rule (DESIGN.md Appendix B)'], exhaustive=False)
